@@ -60,10 +60,10 @@ def ids_of(d, univ):
     return out
 
 
-def check_table(case, ctx, scheme=None):
+def check_table(case, ctx, scheme=None, d=None):
     scheme = scheme or case["scheme"]
     rankings = case["dataset"]["rankings"] if "dataset" in case else case["rankings"]
-    d = lib.mk_dataset(rankings)
+    d = d if d is not None else lib.mk_dataset(rankings)
     s = lib.mk_scheme(scheme)
     inst = oracle.Instance(rankings, scheme)
     univ = inst.elements
@@ -127,8 +127,11 @@ def check_small(case, ctx):
 
 def check_table_batched(case, ctx):
     # generation dominates the cost: the drawn scheme, then the decoder scheme on the same dataset and candidates
-    check_table(case, ctx)
-    check_table(case, ctx, scheme=DECODER)
+    # the same Dataset object serves both tables (and is then used a third time under the drawn scheme)
+    d = lib.mk_dataset(case["dataset"]["rankings"])
+    check_table(case, ctx, d=d)
+    check_table(case, ctx, scheme=DECODER, d=d)
+    check_table(case, ctx, d=d)
 
 
 @st.composite
